@@ -13,9 +13,11 @@ classifies the consumer:
               `let .. else` whose `Err` arm does not leave the function with an `Err`, a value that is dropped unused, a
               closure returning the Result into an adaptor that discards errors (`filter_map`, `flat_map`, `flatten` ...)
 
-Every absorbing site, keyed by (function, producer of the Result, kind of consumer), must be listed in
+Every absorbing site, keyed by (function, call that first produced the Result), must be listed in
 `tables/r24.toml` with the reason why the error may be dropped there; an unlisted site, or more sites of a listed key
-than were reviewed, is a violation.  The table is the Engler-style belief set: the code says where failures are
+than were reviewed, is a violation.  The kind of consumer and Result -> Result adaptors between producer and consumer
+are spelling and not part of the key; a site in a private helper without a row of its own is charged to the helper's
+callers.  The table is the Engler-style belief set: the code says where failures are
 expected (first of three initialisations, a point of a phase diagram), the checker makes every *new* place visible."""
 import os
 import tomllib
@@ -117,6 +119,64 @@ def _drop_only_blocks(b, blocks):
     return out
 
 
+_DEFS = {}
+
+
+def _closure_steps(F, b, t):
+    """names of the fallible steps (calls returning a Result with a solver error) inside the closure handed to an
+    `and_then` / `map`-like adaptor: `init(..).and_then(|v| v.iterate(..))` is the chain init>iterate"""
+    import boolsum
+    out = []
+    for a in t["args"][1:]:
+        cb = F.body(boolsum.closure_def_of_type(b.opty(a)) or "") if a.get("k") in ("copy", "move") else None
+        if cb is None:
+            continue
+        for bi, ct in cb.calls():
+            if ct["dest"]["p"]:
+                continue
+            ty = cb.lty(ct["dest"]["l"])
+            nm = str(callee(ct)[2])
+            if ty and carries_solver_error(ty["s"]) and nm not in PASS_ON and nm not in PROPAGATE:
+                out.append(nm)
+    return out
+
+
+def _root_producer(F, b, t, depth=0):
+    """identity of the fallible computation whose error is consumed: the call that first produced the Result, followed by
+    the fallible steps chained onto it with `and_then` (`a>b`).  Result -> Result adaptors are followed back through their
+    receiver, so respelling a combinator chain does not change the identity of a site, while absorbing the error of a
+    shorter or longer chain does."""
+    from cfg import Defs
+    name = str(callee(t)[2])
+    if name not in PASS_ON or depth > 8 or not t["args"]:
+        return name
+    a = t["args"][0]
+    if a.get("k") not in ("copy", "move"):
+        return name
+    steps = _closure_steps(F, b, t) if name == "and_then" else []
+    defs = _DEFS.get(id(b))
+    if defs is None:
+        defs = _DEFS[id(b)] = Defs(b)
+    l = a["place"]["l"]
+    for _ in range(8):
+        ds = defs.of(l)
+        if len(ds) != 1:
+            return name
+        d = ds[0]
+        if d[0] == "call":
+            if not carries_solver_error((b.lty(d[2]["dest"]["l"]) or {}).get("s")):
+                return name
+            return ">".join([_root_producer(F, b, d[2], depth + 1)] + steps)
+        rv = d[4]
+        if rv["k"] in ("use", "cast") and rv["op"].get("k") in ("copy", "move"):
+            l = rv["op"]["place"]["l"]
+        elif rv["k"] == "ref":
+            l = rv["place"]["l"]
+        else:
+            return name
+    return name
+
+
 def census(F):
     """list of absorbing sites: dict(root, body, producer, kind, span)"""
     sites = []
@@ -148,7 +208,7 @@ def census(F):
                 continue
             n_results += 1
             uses = uses or _uses(b)
-            producer = str(callee(t)[2])
+            producer = _root_producer(F, b, t)
             kinds = set()
             work = [l]
             seen = set()
@@ -210,52 +270,93 @@ def load_table():
         return tomllib.load(f).get("absorb", [])
 
 
+def _callers(F):
+    """root function path -> set of root function paths calling it (closures charged to their parent)"""
+    cs = defaultdict(set)
+    for b in F.bodies:
+        src = root_path(b)
+        for bi, t in b.calls():
+            cb = F.callee_body(t)
+            if cb is not None and not cb.is_closure():
+                cs[cb.path].add(src)
+    return cs
+
+
 def run(F, scopes, rule_id="R24"):
     r = RuleResult(rule_id, "ERRDROP: solver errors are absorbed only at the reviewed sites")
     sites, n_results = census(F)
     table = load_table()
-    groups = defaultdict(list)
-    for s in sites:
-        groups[(s["root"], s["producer"], s["kind"])].append(s)
+    callers = None
+    vis = {b.path: b.get("vis") for b in F.bodies if not b.is_closure()}
+
+    def rows_for(root, producer):
+        return [i for i, t in enumerate(table) if root.endswith(t["fn"]) and t["producer"] == producer]
+
+    # a site is keyed by (function, call that first produced the Result).  The *kind* of consumer (`.ok()`, `is_ok()`, `if let Ok`)
+    # and Result -> Result adaptors in between are spelling; a site inside a private helper that has no row of its own is charged to
+    # the functions calling the helper (extracting a loop into a helper keeps the reviewed behaviour of its callers).
+    per_row = defaultdict(list)
     n_scope = 0
-    used_rows = set()
-    for (root, producer, kind), ss in sorted(groups.items()):
+    groups = defaultdict(list)
+    for s_ in sites:
+        groups[(s_["root"], s_["producer"])].append(s_)
+    for (root, producer), ss in sorted(groups.items()):
         if not any(sc in root for sc in scopes):
             continue
         n_scope += len(ss)
-        row = None
-        for i, t in enumerate(table):
-            if root.endswith(t["fn"]) and t["producer"] == producer and t["kind"] == kind:
-                row = (i, t)
-        iid = "absorb|%s|%s|%s" % (root, producer, kind)
-        if row is None:
+        rows = rows_for(root, producer)
+        charged = [root]
+        if not rows and vis.get(root) not in ("Public",):
+            callers = callers or _callers(F)
+            seen = {root}
+            frontier = [root]
+            for _ in range(3):
+                nxt = []
+                for f in frontier:
+                    for c in callers.get(f, ()):
+                        if c in seen:
+                            continue
+                        seen.add(c)
+                        rs = rows_for(c, producer)
+                        if rs:
+                            rows += rs
+                            charged.append(c)
+                        elif vis.get(c) not in ("Public",):
+                            nxt.append(c)
+                frontier = nxt
+        kinds = ",".join(sorted({x["kind"] for x in ss}))
+        iid = "absorb|%s|%s" % (root, producer)
+        if not rows:
             r.inst(iid, ss[0]["span"], "violation")
             r.fail(iid, ss[0]["span"],
                    "%s: the error of `%s(..)` is absorbed here (%s) and the site is not one of the reviewed places where a solver "
                    "failure may be turned into a non-error — a failed inner solve now looks like a regular result to the caller" % (
-                       root, producer, kind))
+                       root, producer, kinds))
             continue
-        used_rows.add(row[0])
-        if len(ss) > row[1].get("count", 1):
-            r.inst(iid, ss[-1]["span"], "violation")
-            r.fail(iid + "|count", ss[-1]["span"],
-                   "%s: %d sites absorb the error of `%s(..)` by %s, %d were reviewed" % (root, len(ss), producer, kind, row[1].get("count", 1)))
-        else:
-            r.inst(iid, ss[0]["span"], "ok", sites=len(ss), reviewed=row[1]["why"])
-    # two-sided: a reviewed recovery (alternative start value, retry) must not silently disappear or be narrowed
+        for i in set(rows):
+            per_row[i] += ss
+        r.inst(iid, ss[0]["span"], "ok", sites=len(ss), kinds=kinds, charged_to=charged[-1], reviewed=table[rows[0]]["why"])
     roots = {b.path.split("::{closure")[0] for b in F.bodies}
-    for t in table:
+    for i, t in enumerate(table):
         fns = [x for x in roots if x.endswith(t["fn"]) and any(sc in x for sc in scopes)]
-        if not fns or not t.get("recovery"):
+        if not fns:
             continue
-        have = sum(len(groups.get((fn, t["producer"], t["kind"]), [])) for fn in fns)
-        if have < t.get("count", 1):
+        have = len(per_row.get(i, []))
+        want = t.get("count", 1) * len(fns)
+        if have > want:
+            iid = "absorb|%s|%s|count" % (t["fn"], t["producer"])
+            r.inst(iid, per_row[i][-1]["span"], "violation")
+            r.fail(iid, per_row[i][-1]["span"],
+                   "%s: %d sites absorb the error of `%s(..)`, %d were reviewed" % (t["fn"], have, t["producer"], want))
+        # two-sided: a reviewed recovery (alternative start value, retry) must not silently disappear or be narrowed
+        want = t.get("count", 1)          # impls of one trait method share a row; only some of them have the recovery
+        if t.get("recovery") and have < want:
             fn = sorted(fns, key=len)[0]
-            iid = "absorb|%s|%s|%s|removed" % (t["fn"], t["producer"], t["kind"])
+            iid = "absorb|%s|%s|removed" % (t["fn"], t["producer"])
             r.inst(iid, "-", "violation")
             r.fail(iid, "-",
                    "%s: the reviewed recovery from a failed `%s(..)` (%s; %d site(s) reviewed, %d found) was removed or narrowed: inputs that "
-                   "were rescued by the alternative attempt now fail" % (fn, t["producer"], t["why"][:90], t.get("count", 1), have))
+                   "were rescued by the alternative attempt now fail" % (fn, t["producer"], t["why"][:90], want, have))
     # (c) no recovery decision depends on the *kind* of solver error: on the reviewed tree nothing but the derived Display / Debug /
     #     Error impls inspects the variant of an EosError.  A retry that is taken only for `NotConverged` silently stops rescuing
     #     attempts that fail with IterationFailed / TrivialSolution.
